@@ -333,7 +333,7 @@ func main() {
 	jobs := make(chan job, 256)
 	var wg sync.WaitGroup
 	var mu sync.Mutex
-	n, bad := 0, 0
+	n, bad, skipped := 0, 0, 0
 	for i := 0; i < workers; i++ {
 		wg.Add(1)
 		go func() {
@@ -346,12 +346,21 @@ func main() {
 				if len(c.Obs) != len(c.Hist) {
 					vh.Fatal("case has %d operations and %d observations", len(c.Hist), len(c.Obs))
 				}
+				if tailh.BudgetSpent() {
+					mu.Lock()
+					skipped++
+					mu.Unlock()
+					continue
+				}
 				res := check(base, &c, c.Obs)
 				mu.Lock()
 				n++
 				mu.Unlock()
 				if res.why == "" {
 					continue
+				}
+				if res.stall {
+					tailh.NoteStall()
 				}
 				mu.Lock()
 				bad++
@@ -370,7 +379,7 @@ func main() {
 	if err != nil {
 		vh.Fatal("%v", err)
 	}
-	vh.Out(map[string]any{"summary": true, "cases": n, "mismatches": bad})
+	vh.Out(map[string]any{"summary": true, "cases": n, "mismatches": bad, "skipped": skipped})
 	vh.Flush()
 }
 
